@@ -279,6 +279,74 @@ def run(ctx):
             ctx.ob('7a moved-value-leaves-no-entry-in-an-older-index %s' % wb.path, 'K1-must-pass', wb.path,
                    'unless the key was found in the current index, a plan that enters the new address of a moved value also removes the entry of the index the key was found in',
                    ok, '' if ok else 'entry kept in the older index: ' + lib.short_path(wb, w1 + w2), wb.loc(i))
+        # 7b (F74). The insert can answer NeedReindex WITHOUT having written anything - the new address does not fit the address
+        # range of this index (a tier with more than 2^22 slots). The value has been moved by then: the entry the key was found
+        # under names a freed slot whichever index it is in, and it has to be removed on every path that hands NeedReindex back -
+        # also when it sits in the current index, which is about to be queued and migrated entry by entry.
+        adt = F.adts.get('index::PlanOutcome')
+        nr = None
+        if adt:
+            for v in adt['variants']:
+                if v['name'] == 'NeedReindex':
+                    nr = v['discr']
+        all_rem = [bi for bi in wb.call_sites('index::IndexTable::write_remove_plan') if bi in wb.normal_blocks()]
+        for i in ins:
+            # the switch on the outcome of this insert
+            want = {wb.term(i)['d'][0]}
+            for _ in range(4):
+                for bi in wb.normal_blocks():
+                    tt = wb.term(bi)
+                    if tt['k'] == 'call' and call_matches(tt, ['std::ops::Try::branch']) and tt['a'] and op_place(tt['a'][0]) is not None and op_place(tt['a'][0])[0] in want:
+                        want.add(tt['d'][0])
+                    for st in wb.blocks[bi]['s']:
+                        if st['k'] == 'assign' and len(st['p']) == 1 and st['r']['k'] == 'use' and op_place(st['r']['a'][0]) is not None and op_place(st['r']['a'][0])[0] in want:
+                            want.add(st['p'][0])
+            nr_edges = []
+            for bi in wb.normal_blocks():
+                tt = wb.term(bi)
+                d = lib.switch_def(wb, bi)
+                if tt['k'] == 'switch' and d and d[2] == 'assign' and d[3]['r']['k'] == 'discr' and d[3]['r']['p'][0] in want and 'PlanOutcome' in str(wb.locals[d[3]['r']['p'][0]]) and nr is not None:
+                    for v, tg in zip(tt['vals'], tt['ts']):
+                        if v == nr:
+                            nr_edges.append((bi, tg))
+            # the two cases are told apart by the comparison of the table ids: found in an older index (`same` edges removed), or
+            # found in the current one (the other edges removed, and with them the None side of an Option that is Some exactly then:
+            # `let sub_index = if in_current { Some(sub_index) } else { None }`)
+            diff = set()
+            for x in eqs:
+                ne = call_matches(wb.term(x), ['re:::ne$'])
+                for (sb, tr, fa) in lib.bool_outcome_edges(wb, [x]):
+                    diff.add(tr if ne else fa)
+            opt_none_edges = set()
+            for l, ty in enumerate(wb.locals):
+                if not str(ty).startswith('std::option::Option<'):
+                    continue
+                ds = [d for d in wb.defs().get(l, []) if d[2] == 'assign' and d[3]['r']['k'] == 'agg']
+                somes = [d for d in ds if d[3]['r']['ak'].endswith('Option::Some')]
+                nones = [d for d in ds if d[3]['r']['ak'].endswith('Option::None')]
+                if len(somes) == 1 and len(nones) == 1 and len(wb.defs().get(l, [])) == 2 and \
+                        any(wb.find_path([0], {somes[0][0]}, removed_edges=frozenset(same)) is None for _ in [0]) and wb.find_path([0], {nones[0][0]}, removed_edges=frozenset(diff)) is None:
+                    for bi in wb.normal_blocks():
+                        tt = wb.term(bi)
+                        d = lib.switch_def(wb, bi)
+                        if tt['k'] == 'switch' and d and d[2] == 'assign' and d[3]['r']['k'] == 'discr' and lib.root_local(wb, {'o': 'c', 'p': d[3]['r']['p']}) in (l,) + tuple(
+                                x[3]['p'][0] for x in [y for ll in range(len(wb.locals)) for y in wb.defs().get(ll, []) if y[2] == 'assign' and y[3]['r']['k'] == 'use' and op_place(y[3]['r']['a'][0]) == [l]]):
+                            for v, tg2 in zip(tt['vals'], tt['ts']):
+                                if v == 0:
+                                    opt_none_edges.add((bi, tg2))
+                            if tt['vals'] == [1]:
+                                opt_none_edges.add((bi, tt['ts'][-1]))
+            ok, det = False, 'the NeedReindex outcome of the insert is not examined'
+            if nr_edges:
+                ok, det = True, ''
+                for sw, tg in nr_edges:
+                    for name, cut in (('found in an older index', frozenset(same)), ('found in the current index', frozenset(diff | opt_none_edges))):
+                        w1 = wb.find_path([0], {sw}, removed=set(all_rem), removed_edges=cut)
+                        w2 = wb.find_path([tg], wb.return_blocks(), removed=set(all_rem) | errs, removed_edges=cut) if w1 else None
+                        if w1 and w2:
+                            ok, det = False, 'NeedReindex handed back with the found entry still in place (key %s): %s' % (name, lib.short_path(wb, w1 + w2))
+            ctx.ob('7b found-entry-removed-when-the-insert-needs-a-bigger-index %s' % wb.path, 'K1-must-pass', wb.path,
+                   'every path that hands NeedReindex back after the value was moved has removed the entry the key was found under (in whichever index generation)', ok, det, wb.loc(i))
     shared.lookup_sees_one_queue_state(ctx, '8')
     shared.index_hit_verified_against_key(ctx, '9')
     shared.index_entry_purged_from_all_generations(ctx, '10')
